@@ -98,18 +98,18 @@ example : OperGranted exCfg (exCtx.conn 1).source (str "root") (str "pw") :=
   ⟨_, rfl, by decide, Or.inr ⟨_, rfl, by decide⟩⟩
 
 example : (processOper exCfg 1 (str "root") (str "pw") exCtx).direct =
-    [str ":irc.irc 381 alice :You are now an IRC operator"] := by decide
+    [(str ":irc.irc " ++ Reply.RplYoureOper381 (client := str "alice"))] := by decide
 example : operOf (processOper exCfg 1 (str "root") (str "pw") exCtx).w (str "alice") = true := by decide
 example : operOf exCtx.w (str "alice") = false := by decide
 -- wrong password: 464
 example : (processOper exCfg 1 (str "root") (str "no") exCtx).direct =
-    [str ":irc.irc 464 alice :Password incorrect"] := by decide
+    [(str ":irc.irc " ++ Reply.ErrPasswdMismatch464 (client := str "alice"))] := by decide
 -- unknown name: 491
 example : (processOper exCfg 1 (str "toor") (str "pw") exCtx).direct =
-    [str ":irc.irc 491 alice :No O-lines for your host"] := by decide
+    [(str ":irc.irc " ++ Reply.ErrNoOperHost491 (client := str "alice"))] := by decide
 -- right name and password from a source the mask does not match: 491, still no operator
 example : (processOper exCfg 2 (str "root") (str "pw") exCtx).direct =
-    [str ":irc.irc 491 bob :No O-lines for your host"] := by decide
+    [(str ":irc.irc " ++ Reply.ErrNoOperHost491 (client := str "bob"))] := by decide
 example : operOf (processOper exCfg 2 (str "root") (str "pw") exCtx).w (str "bob") = false := by decide
 
 /-! ## 2. MODE never confers operator status -/
@@ -147,7 +147,7 @@ theorem umode_plus_o_refused (cfg : Cfg) (cn : Conn) (nick : Str) (a : UModeAcc)
   constructor <;> intro h <;> simp [umodeChar, hs, h]
 
 example : (processModeUser exCfg 1 (str "alice") [(str "+o", [])] exCtx).direct =
-    [str ":irc.irc 481 alice :Permission Denied- You're not an IRC operator"] := by decide
+    [(str ":irc.irc " ++ Reply.ErrNoPrivileges481 (client := str "alice"))] := by decide
 example : operOf (processModeUser exCfg 1 (str "alice") [(str "+oO", []), (str "+o-i+O", [])] exCtx).w
     (str "alice") = false := by decide
 -- an operator can drop the flag
@@ -192,9 +192,9 @@ theorem mode_user_only_target (cfg : Cfg) (c : Nat) (target : Str) (modes : List
     rw [hus, Map.lookup_modify]; simp [hu]
 
 example : (processMode exCfg 1 (str "bob") [(str "+i", [])] exCtx).direct =
-    [str ":irc.irc 502 alice :Cant change mode for other users"] := by decide
+    [(str ":irc.irc " ++ Reply.ErrUsersDontMatch502 (client := str "alice"))] := by decide
 example : (processMode exCfg 1 (str "zed") [(str "+i", [])] exCtx).direct =
-    [str ":irc.irc 401 alice zed :No such nick/channel"] := by decide
+    [(str ":irc.irc " ++ Reply.ErrNoSuchNick401 (client := str "alice") (nick := str "zed"))] := by decide
 example : (processMode exCfg 3 (str "alice") [(str "+o", [])] exCtx).w.users = exWorld.users := by decide
 
 /-! ## 5. privileged commands -/
@@ -300,9 +300,9 @@ theorem killed_is_told (cfg : Cfg) (w : World) (outs : List (Nat × Str)) (evs :
     exact removeUser_lookup_self _ n
 
 example : (processKill exCfg 1 (str "bob") (str "bye") exCtx).direct =
-    [str ":irc.irc 481 alice :Permission Denied- You're not an IRC operator"] := by decide
+    [(str ":irc.irc " ++ Reply.ErrNoPrivileges481 (client := str "alice"))] := by decide
 example : (processKill exCfg 3 (str "zed") (str "bye") exCtx).direct =
-    [str ":irc.irc 401 carol zed :No such nick/channel"] := by decide
+    [(str ":irc.irc " ++ Reply.ErrNoSuchNick401 (client := str "carol") (nick := str "zed"))] := by decide
 example : ((processKill exCfg 3 (str "bob") (str "bye") exCtx).w.conns.map (·.killedBy)) =
     [none, some (str "carol", str "bye"), none] := by decide
 example : (settleConn exCfg ((processKill exCfg 3 (str "bob") (str "bye") exCtx).w, [], []) 2).2.1 =
@@ -382,10 +382,10 @@ theorem squit_requires_oper (cfg : Cfg) (c : Nat) (server comment : Str) (x : Ct
     rw [this]
     exact (die_requires_oper cfg c (some comment) x nick user hn hu).1 ho
 
-example : (processDie exCfg 1 none exCtx).direct = [str ":irc.irc 483 alice :You cant kill a server!"] := by
+example : (processDie exCfg 1 none exCtx).direct = [(str ":irc.irc " ++ Reply.ErrCantKillServer483 (client := str "alice"))] := by
   decide
 example : (processSquit exCfg 1 (str "irc.irc") (str "x") exCtx).direct =
-    [str ":irc.irc 483 alice :You cant kill a server!"] := by decide
+    [(str ":irc.irc " ++ Reply.ErrCantKillServer483 (client := str "alice"))] := by decide
 example : (processDie exCfg 3 none exCtx).w.srvQuit = true ∧
     (processDie exCfg 3 none exCtx).w.conns.map (·.killedBy) =
       [some (str "carol", str "Quitting from DIE"), some (str "carol", str "Quitting from DIE"),
@@ -438,7 +438,7 @@ theorem wallops_audience (cfg : Cfg) (c : Nat) (msg : Message) (x : Ctx) (nick :
       simp [h1, h2]
 
 example : (processWallops exCfg 1 (Message.mk none (str "WALLOPS") [str "hi"]) exCtx).direct =
-    [str ":irc.irc 481 alice :Permission Denied- You're not an IRC operator"] ∧
+    [(str ":irc.irc " ++ Reply.ErrNoPrivileges481 (client := str "alice"))] ∧
     (processWallops exCfg 1 (Message.mk none (str "WALLOPS") [str "hi"]) exCtx).queued = [] := by decide
 example : (processWallops exCfg 3 (Message.mk none (str "WALLOPS") [str "hi"]) exCtx).queued =
     [(2, str ":carol!~u@h WALLOPS hi"), (3, str ":carol!~u@h WALLOPS hi")] := by decide
@@ -480,7 +480,7 @@ theorem stats_requires_local_oper (cfg : Cfg) (c : Nat) (stat : Char) (x : Ctx) 
     · simp
 
 example : (processStats exCfg 1 'u' none exCtx).direct =
-    [str ":irc.irc 481 alice :Permission Denied- You're not an IRC operator"] := by decide
+    [(str ":irc.irc " ++ Reply.ErrNoPrivileges481 (client := str "alice"))] := by decide
 example : (processStats exCfg 3 'u' none exCtx).direct =
     [str ":irc.irc 242 carol :Server Up 0 days 0:00:00", str ":irc.irc 219 carol u :End of STATS report"] := by
   decide
